@@ -27,6 +27,24 @@ CLAIMED = {
         "against all agent functions over a 3-OID universe and random scripted agents correspond",
         "the |U|+2 bound itself is checked by the oracle on the implementation, its Lean proof is pending",
     ),
+    "C04": (
+        "proof: result of every single-exchange operation stated outright as a function of the accepted response (values in "
+        "order, successors to end of view, SET request = supplied bindings, bulk split, count/oversize refusal, no invented "
+        "binding), composed with the conformant agent; tied by end-to-end correspondence over v1/v2c/v3 x levels with "
+        "extra/dropped-binding faults",
+        "BER codec and USM are abstracted at this level (C05/C06/C09 cover them); dict() modelled as insertion-ordered association list",
+    ),
+    "C07": (
+        "proof: id in the request = id validated for every operation and clock value; accepted => ids equal; mismatch => "
+        "InvalidResponseId / never a result; echo accepted (v1/v2c/v3); foreign community/version refused; tied by correspondence "
+        "with a scripted clock (read count compared) and perturbing agents, walks and discovery included",
+        "one clock read per operation is a model assumption validated by the read-count comparison",
+    ),
+    "C08": (
+        "proof: generated status->class table equals the documented one (decide), generic class outside 1..18, offending OID "
+        "selection incl. index 0 / beyond the list / empty list, never data, every operation and version; unit matrix + e2e",
+        "laziness of PDU decoding (where the error surfaces) is modelled by forcePdu placement",
+    ),
     "C17": (
         "proof: Counter32/64 range+wrap, tick and IPv4 round trips proved for all integers over bodies generated from the "
         "source by the mini translator; correspondence on boundaries + dense tick prefix",
